@@ -27,7 +27,7 @@ RULE = ("Hypothesis draws (partitioning mp/re, first_order_singles, request "
         "Non-trivial: order >= 2, or class >= triples, or a two-particle "
         "operator, or RE, and a non-zero reference.")
 BUDGET = {"quick": 110, "thorough": 1800}
-N_EXAMPLES = {"quick": 30, "thorough": 300}
+N_EXAMPLES = {"quick": 20, "thorough": 300}
 ASSUMPTIONS = ["MP models have f_ov = 0 (the derivation documents a block "
                "diagonal H0); closed-form MP amplitudes need a canonical "
                "(diagonal) Fock matrix"]
@@ -50,9 +50,9 @@ def st_names(draw, rank):
     occ = list(draw(st.permutations(list(ALPHABET["occ"]))))[:rank]
     virt = list(draw(st.permutations(list(ALPHABET["virt"]))))[:rank]
     if draw(st.integers(0, 3)) == 0:
-        occ = [n + str(draw(st.sampled_from([1, 2, 7, 13]))) for n in occ]
+        occ = [n + str(draw(st.sampled_from([1, 2]))) for n in occ]
     if draw(st.integers(0, 3)) == 0:
-        virt = [n + str(draw(st.sampled_from([1, 3, 11]))) for n in virt]
+        virt = [n + str(draw(st.sampled_from([1, 2]))) for n in virt]
     names = occ + virt
     if draw(st.booleans()):
         names = list(draw(st.permutations(names)))
